@@ -515,6 +515,7 @@ package limit
 //@   assigns nothing
 
 //@ func (*FixedLimit).NotifyOnChange
+//@   ensures[C16,C19] never_changes: l.limit == old(l.limit)
 //@   assigns nothing
 
 // ---------------------------------------------------------------------------------------------
